@@ -37,6 +37,26 @@ def facts : RuleFacts where
 replaced before analysis). -/
 def kindExceptions : List String := ["plan.ExecuteQuery", "plan.StrExpr"]
 
+/-- The table the expectation demands: today's table with every unsound entry replaced by the
+canonical shape (identical to `tbl` while `table_sound` holds). The driver decides the Spec of a
+tree that is not well-formed over `tbl` over this table, so that a kind whose method went wrong
+in the source yields failing inputs instead of silencing the Spec. -/
+def tblR : Table := repair tbl expect kindExceptions
+
+mutual
+/-- Does the tree hold a node of one of these kinds? -/
+def hasKind (ks : List String) : Node → Bool
+  | .mk _ k _ _ cs => ks.contains k || hasKindL ks cs
+def hasKindL (ks : List String) : List Node → Bool
+  | [] => false
+  | c :: cs => hasKind ks c || hasKindL ks cs
+end
+
+/-- Spec-determined although not well-formed over the source's table: well-formed over the
+repaired table and free of the placeholder kinds whose method panics. -/
+def wfSpecOnly (n : Node) : Bool :=
+  !wf tbl expect n && wf tblR expect n && !hasKind kindExceptions n
+
 /-! ### What the property demands of each observation (used by the driver) -/
 
 def resStr : Res → String
